@@ -307,8 +307,8 @@ inductive LLabel
 
 def bit (f m : Nat) : Bool := f &&& m != 0
 
-def lstep (ls : LState) (l : LLabel) : Option LState :=
-  match ls.pc with
+def lstepAt (ls : LState) (pc : HPc) (l : LLabel) : Option LState :=
+  match pc with
   | .start =>
     match l with
     | .ldFlags f => some { ls with pc := if bit f F_RT then .top else .dec0, rt := bit f F_RT, sub := 0 }
@@ -402,6 +402,8 @@ def lstep (ls : LState) (l : LLabel) : Option LState :=
     | _ => none
   | _ => none
 
+def lstep (ls : LState) (l : LLabel) : Option LState := lstepAt ls ls.pc l
+
 def lrun : LState → List LLabel → Option LState
   | ls, [] => some ls
   | ls, l :: r => match lstep ls l with
@@ -471,7 +473,7 @@ def Obs (s : State) (h : Nat) (ls : LState) : LLabel → Prop
   | _ => True
 
 /-- the part of the L2 guards that is not a condition on the helper's own fields -/
-def Guard (c : Cfg) (s : State) (h : Nat) (ls : LState) : LLabel → Prop
+def Guard (c : Cfg) (s : State) (h : Nat) (_ls : LState) : LLabel → Prop
   | .gp => gpMayEnd c s (s.hgp h)
   | .run _ => s.tpc (c.n + h) = .idle
   | .errno e => e = 11 → s.futex h ≠ -1
